@@ -386,6 +386,149 @@ def _pair_cfg(rng, small=False):
     return cfg
 
 
+NUM_HEADER = r"""
+From Coq Require Import List ZArith Floats Bool Arith.
+From TV Require Import Num.Ops Num.InstF Lin.BigSum Model.Cross Proofs.Cross05PInterp.
+Import ListNotations.
+Definition fmat (rows : list (list float)) (t s : nat) : float := nth s (nth t rows []) 0%float.
+Definition pos (n : nat) (ind : list nat) (B : list (list float)) : @posd float := mkposd n ind (fmat B) [].
+(* the half sweep of C05_cross_exact_cond at the float instance: value at q = <interface vector, closing vector>,
+   followed by the last left index set *)
+Definition eval_ltr (ps : list (@posd float)) (closing : list float) (qs : list (list nat)) : list (list Z) :=
+  map (fun q => let (L1, v1) := runI OF ps [[]] (e0 OF) q in
+                let (m, e) := F_show (bsum OF (length L1) (fun a => omul OF (v1 a) (nth a closing 0%float))) in [m; e]) qs
+  ++ [[-7]%Z]
+  ++ map (map Z.of_nat) (fst (runI OF ps [[]] (e0 OF) (map (fun _ => O) ps))).
+"""
+
+
+def run_ltr(tn, c):
+    """one run on a rank-rho target, interrupted right after the first left-to-right half sweep of the main loop, with
+    recorders on teneva._maxvol and teneva.cross._iter"""
+    cr = sys.modules['teneva.cross']
+    A, Y0 = lowrank_target(c)
+    d = len(c['ns'])
+    rec = dict(mv=[], it=[])
+    o_mv, o_it = tn._maxvol, cr._iter
+
+    def w_mv(Am, *a, **k):
+        I, B = o_mv(Am, *a, **k)
+        rec['mv'].append((np.array(Am, copy=True), [int(x) for x in I], np.array(B, copy=True)))
+        return I, B
+
+    def w_it(Z, Ig, I, *a, **k):
+        out = o_it(Z, Ig, I, *a, **k)
+        rec['it'].append(dict(Z=np.array(Z, copy=True), I=None if I is None else np.array(I), ltr=k.get('ltr', True),
+                              G=np.array(out[0], copy=True), R=np.array(out[1], copy=True), Inew=np.array(out[2])))
+        return out
+
+    ncall = [0]
+
+    def f(I):
+        k = ncall[0]
+        ncall[0] += 1
+        if k == d:
+            return None
+        return A[tuple(np.asarray(I).T)]
+
+    info = {}
+    tn._maxvol, cr._iter = w_mv, w_it
+    try:
+        with warnings.catch_warnings():
+            warnings.simplefilter('ignore')
+            with np.errstate(all='ignore'):
+                Y = tn.cross(f, [G.copy() for G in Y0], nswp=3, dr_min=c['dr_min'], dr_max=c['dr_max'], info=info)
+    finally:
+        tn._maxvol, cr._iter = o_mv, o_it
+    return dict(A=A, Y=Y, info=info, rec=rec, d=d)
+
+
+def numeric_stream(R, ctx, tn):
+    """numeric layer: (1) the identities the interpolation theorems start from, on every recorded _iter call of a
+    left-to-right half sweep (core = Fortran reshape of B, new index rows = cand(ind), pending factor = Z[ind],
+    B Q[ind] = Q, B Z[ind] = Z); (2) the Gallina half sweep runI at the float instance, fed with the recorded ind / B and
+    the recorded closing factor, against the tensor the implementation returns when interrupted after that half sweep"""
+    rng = ctx['rng']
+    items, idbad, meta = [], [], []
+    dist = dict(kinds={}, d={}, iters=0)
+    for j in range(240 if ctx['thorough'] else 40):
+        c = gen_lowrank(rng)
+        c['cache'] = False
+        if max(c['ns']) > 4 and len(c['ns']) > 3:
+            continue
+        o = run_ltr(tn, c)
+        d, rec = o['d'], o['rec']
+        if o['info'].get('stop') != 'func' or len(rec['it']) != 3 * d or len(rec['mv']) != 3 * d:
+            idbad.append(dict(what='unexpected call structure', input=dict(lowrank=c),
+                              got=[o['info'].get('stop'), len(rec['it']), len(rec['mv'])]))
+            continue
+        dist['kinds'][c['kind']] = dist['kinds'].get(c['kind'], 0) + 1
+        dist['d'][d] = dist['d'].get(d, 0) + 1
+        ps, L = [], [[]]
+        for i in range(d):
+            it, (Q, ind, B) = rec['it'][2 * d + i], rec['mv'][2 * d + i]
+            dist['iters'] += 1
+            Z = it['Z']
+            r1, n, r2 = Z.shape
+            Zm = Z.reshape((r1 * n, r2), order='F')
+            sc = max(1e-300, float(np.abs(Zm).max()))
+            tol = 1e-9 * max(1.0, float(np.abs(B).max())) * r1 * n
+            why = None
+            if not it['ltr']:
+                why = 'not a left-to-right call'
+            elif not np.array_equal(it['G'], B.reshape((r1, n, -1), order='F')):
+                why = 'core is not the Fortran reshape of B: G[a, j, c] != B[a + r1 j, c]'
+            elif [list(map(int, r)) for r in it['Inew'].tolist()] != [L[t % len(L)] + [t // len(L)] for t in ind]:
+                why = 'new index rows are not cand(ind)'
+            elif len(L) != r1 or not all(0 <= t < r1 * n for t in ind):
+                why = 'row numbers out of range / left rank mismatch'
+            elif np.abs(it['R'] - Zm[ind]).max() > tol * sc:
+                why = 'pending factor R is not Z[ind]'
+            elif np.abs(B @ Q[ind] - Q).max() > tol:
+                why = 'maxvol contract B Q[ind] = Q violated'
+            elif np.abs(B @ Zm[ind] - Zm).max() > tol * sc:
+                why = 'B Z[ind] = Z violated'
+            if why:
+                idbad.append(dict(what=why, input=dict(lowrank=c), position=i))
+                break
+            ps.append((n, ind, B))
+            L = [L[t % len(L)] + [t // len(L)] for t in ind]
+        else:
+            closing = rec['it'][3 * d - 1]['R'].reshape(-1)
+            F = full(o['Y'])
+            allq = [list(q) for q in np.ndindex(*c['ns'])]
+            qs = allq if len(allq) <= 16 else rng.sample(allq, 16)
+            term = 'eval_ltr [' + '; '.join(
+                f'pos {n}%nat {C.natlist(ind)} {C.nested(B.tolist(), C.flit)}%float' for n, ind, B in ps) + '] ' + \
+                C.nested(closing.tolist(), C.flit) + '%float ' + \
+                '[' + '; '.join(C.natlist(q) for q in qs) + ']'
+            items.append(term)
+            meta.append(dict(c=c, qs=qs, vals=[float(F[tuple(q)]) for q in qs], L=L, scale=float(np.abs(F).max())))
+    vals = C.run_cases('C05_num', NUM_HEADER, items, chunk=max(2, len(items) // 8)) if items else []
+    bad = []
+    for v, m in zip(vals, meta):
+        R.add_distinct(('num', m['c']))
+        k = v.index([-7])
+        mv = [C.float_of_show(p) for p in v[:k]]
+        Lm = [list(r) for r in v[k + 1:]]
+        err = max(abs(a - b) for a, b in zip(mv, m['vals'])) if mv else 0.0
+        if len(mv) != len(m['vals']) or not err <= 1e-9 * max(m['scale'], 1e-300) or Lm != m['L']:
+            bad.append(dict(input=['num', dict(lowrank=m['c'])], model=[mv[:4], Lm[:4]], impl=[m['vals'][:4], m['L'][:4]],
+                            err=err))
+    R.corr.append(dict(name='identities behind the interpolation theorems on recorded _iter / _maxvol calls',
+                       cases=dist['iters'], mismatches=len(idbad),
+                       comparison='exact: core == Fortran reshape of B, new index rows == cand(ind); 1e-9 relative: '
+                                  'R == Z[ind], B Q[ind] == Q, B Z[ind] == Z',
+                       distribution=dist, first_mismatches=idbad[:3]))
+    R.corr.append(dict(name='Gallina half sweep runI (float instance, recorded ind / B / closing factor) vs returned tensor',
+                       cases=len(items), mismatches=len(bad),
+                       comparison='values at up to 16 multi-indices to 1e-9 of the largest entry; last left index set exact',
+                       distribution=dict(kinds=dist['kinds'], d=dist['d']), first_mismatches=bad[:3]))
+    if items:
+        R.samples.append(dict(stream='runI', input=meta[0]['c'], model=vals[0][:3], impl=meta[0]['vals'][:3]))
+    return bad + [dict(input=['num', b['input']]) for b in idbad]
+
+
 def correspondence(R, ctx):
     tn = C.import_teneva()
     rng = ctx['rng']
@@ -433,7 +576,8 @@ def correspondence(R, ctx):
                        comparison='info r / e_vld / e recomputed on the returned cores (bitwise); reference of e = '
                                   'copy made at sweep start = independent snapshot of the previous sweep',
                        distribution={}, first_mismatches=info_bad[:3]))
-    return bad + [dict(input=['pair', f['input']]) for f in pair_bad + info_bad]
+    bad_num = numeric_stream(R, ctx, tn)
+    return bad + [dict(input=['pair', f['input']]) for f in pair_bad + info_bad] + bad_num
 
 
 # ------------------------------------------------------------------------------------------------ search
